@@ -196,6 +196,8 @@ def correspond_case(ck, op, call, sp, ans, stats):
             d += compare_singleton(L._model_json(cap[0]["model"]), ans["singleton"])
         if len(cap) != 1:
             d.append(f"infer_shapes called {len(cap)} times")
+    if patched and L.calls_onnx(cls) and not ans["untyped"] and not cap:
+        d.append("supplemented operator (its override calls the standard routine) did not request ONNX inference")
     if not patched:
         if ans["untyped"] and cap:
             d.append("an input is untyped but inference was still requested")
